@@ -144,7 +144,7 @@ PROPS["C07"] = e2("TestC07", "programmes drawn by rapid: 2-4 goroutines x 1-4 ca
 PROPS["C07"]["rule"] += ("; plus a reader-interleaving part on the shadow-inotify engine: Add/Remove issued at harness-chosen points of the reader goroutine's progress through a burst (parked in a send with the rest unread, "
                          "after j receives, between the records that end a watch), mixed with deletion, re-creation and re-adding of the watched paths; call results and WatchList at every quiescent point must be those of the "
                          "sequential model applied to the calls in their order (a Remove racing a filesystem-ended watch may also return nil or EINVAL)")
-MANIFEST_TEXT["C07"] = dict(engine="E2", level_text="Exploration: schedules are sampled (Go scheduler, varied GOMAXPROCS, lock contention from event traffic), not enumerated; each sampled history is checked exhaustively for linearizability and the race detector watches every run.",
+MANIFEST_TEXT["C07"] = dict(engine="E2", level_text="Exploration: schedules are sampled (Go scheduler, varied GOMAXPROCS, lock contention from event traffic), not enumerated; each sampled history is checked exhaustively for linearizability and the race detector watches every run. A third part owns the position of the reader goroutine (parked in a send, advanced by j receives, between the records that end a watch) and issues Add/Remove there; results and WatchList are compared with the sequential model.",
                             note="trusted: Go race detector; porcupine v1.3.0 linearizability checker; invoke/return stamps from one atomic counter; the filesystem objects named by the calls are static during the concurrent phase",
                             technique="property-based testing of concurrent programmes under -race with linearizability checking (porcupine) against the sequential model")
 
